@@ -72,10 +72,10 @@ Ck(ly, k) == IF k >= 0 THEN RMatMul(RMatPow(ly.Ts, k), ly.Om) ELSE RTranspose(RM
 \* covariance of two linear combinations sum_a u_a' x_{t-a} and sum_b v_b' x_{t-j-b} of the stable variables
 RECURSIVE QuadSum(_, _, _, _, _, _)
 QuadSum(Cs, U, V, j, a, b) ==       \* U, V: sequences over lags 0..1 of coefficient vectors over the stable variables;
-    IF a > Len(U) THEN RZero         \* Cs[k] = C(k) precomputed for k in -3..3
+    IF a > Len(U) THEN RZero         \* Cs[k] = C(k) precomputed for k in -5..5
     ELSE IF b > Len(V) THEN QuadSum(Cs, U, V, j, a + 1, 1)
     ELSE RAdd(RDot(U[a], RMatVec(Cs[j + (b - 1) - (a - 1)], V[b])), QuadSum(Cs, U, V, j, a, b + 1))
-CTable(ly) == [k \in -3..3 |-> Ck(ly, k)]
+CTable(ly) == [k \in -5..5 |-> Ck(ly, k)]
 
 Unit(n) == [i \in 1..n |-> RZero]
 \* coefficient vectors (over the stable variables, for lags 0 and 1) of element e of the acov vector, or "unit" if it loads on a unit root
